@@ -119,7 +119,7 @@ func cmdIntro(args []string) {
 			func() {
 				defer func() {
 					if p := recover(); p != nil {
-						obs = map[string]interface{}{"ev": "obs", "panic": fmt.Sprint(p), "ok": false, "len": -1, "outs": []int{}, "errnil": false, "errtok": -1,
+						obs = map[string]interface{}{"ev": "obs", "panic": fmt.Sprint(p), "ok": false, "len": -1, "outs": []int{}, "outnil": []bool{}, "errnil": false, "errtok": -1,
 							"unsat": false, "inp": []jval{}, "out": []jval{}, "values": []jval{}, "named": []int{}, "typed": []int{}, "ts": []int{}, "roundtrip": []int{}, "accept": false}
 					}
 				}()
@@ -255,7 +255,7 @@ func obsC17(raw json.RawMessage) map[string]interface{} {
 	}
 	f, err := am.NewFunc(fn.Interface(), fopts...)
 	if err != nil {
-		return map[string]interface{}{"ev": "obs", "len": -1, "outs": []int{}, "errnil": false, "errtok": -1, "unsat": false, "detail": "newfunc: " + err.Error()}
+		return map[string]interface{}{"ev": "obs", "len": -1, "outs": []int{}, "outnil": []bool{}, "errnil": false, "errtok": -1, "unsat": false, "detail": "newfunc: " + err.Error()}
 	}
 	if d.Second {
 		// the observed call is the second one; the first one is given what the function needs
@@ -264,16 +264,19 @@ func obsC17(raw json.RawMessage) map[string]interface{} {
 			first = append(first, am.Typed(scn.MkValue("T6", 99).Interface()))
 		}
 		if r1 := f.Call(first...); d.Fail && r1.Len() != len(outsOf(d)) {
-			return map[string]interface{}{"ev": "obs", "len": -1, "outs": []int{}, "errnil": false, "errtok": -1, "unsat": false, "detail": "first call did not resolve"}
+			return map[string]interface{}{"ev": "obs", "len": -1, "outs": []int{}, "outnil": []bool{}, "errnil": false, "errtok": -1, "unsat": false, "detail": "first call did not resolve"}
 		}
 	}
 	res := f.Call()
 	obs := map[string]interface{}{"ev": "obs", "len": res.Len()}
 	outs := []int{}
+	outnil := []bool{}
 	for i := 0; i < res.Len(); i++ {
 		outs = append(outs, tokOfAny(res.Out(i)))
+		outnil = append(outnil, res.Out(i) == nil)
 	}
 	obs["outs"] = outs
+	obs["outnil"] = outnil
 	e := res.Err()
 	obs["errnil"] = e == nil
 	obs["errtok"] = 0
